@@ -469,6 +469,8 @@ def complex_sqrt(ip, z):
 
 def np_sqrt(ip, args, kwargs):
     (x,) = args
+    if isinstance(x, I.NF):
+        return x if x.kind == 'pinf' else I.NF('nan')
     if isinstance(x, Cx):
         return complex_sqrt(ip, x)
     if isinstance(x, (int, Fraction, Re)):
@@ -490,6 +492,17 @@ def sym_pow(ip, a, n):
 def _trig(ip, fname, x):
     """uninterpreted transcendental function application with axiom instances (DESIGN.md 1.6)"""
     from . import trig
+    if isinstance(x, I.NF):
+        if fname == 'log' and x.kind == 'pinf':
+            return I.NF('pinf')
+        return I.NF('nan')
+    if fname == 'log' and ip.numpy_floats and isinstance(x, (int, Fraction, Re)):
+        z = sym.le(x, 0)
+        if (z is True) or (not isinstance(z, bool) and ip.ctx.decide(z)):
+            z0 = sym.eq(x, 0)
+            if (z0 is True) or (not isinstance(z0, bool) and ip.ctx.decide(z0)):
+                return I.NF('ninf')
+            return I.NF('nan')
     return trig.apply(ip, fname, x)
 
 
@@ -504,6 +517,8 @@ def _mk_trig(fname):
 
 def py_abs(ip, args, kwargs):
     (x,) = args
+    if isinstance(x, I.NF):
+        return x if x.kind == 'nan' else I.NF('pinf')
     if isinstance(x, bool):
         return int(x)
     if isinstance(x, NUM):
@@ -597,7 +612,9 @@ def np_radians(ip, args, kwargs):
 
 
 def np_isnan(ip, args, kwargs):
-    # real-number model: every value is a number
+    # real-number model: every value is a number, except the explicit non-finite values
+    if isinstance(args[0], I.NF):
+        return args[0].kind == 'nan'
     return False
 
 
@@ -646,6 +663,7 @@ def make_numpy(ip):
     ns['exp'] = I.Builtin('exp', np_exp)
     ns['angle'] = I.Builtin('angle', np_angle)
     ns['isnan'] = I.Builtin('isnan', np_isnan)
+    ns['isfinite'] = I.Builtin('isfinite', lambda ip, a, k: not isinstance(a[0], I.NF))
     ns['isclose'] = I.Builtin('isclose', np_isclose)
     ns['clip'] = I.Builtin('clip', np_clip)
     ns['array'] = I.Builtin('array', np_array)
